@@ -35,6 +35,9 @@ def run(ctx):
     if res.violated:
       raise Machinery('Relay.tla violates %s: %s' % (res.violated, [a for a, _ in res.cex]))
   # B + C
+  # the counters themselves: what was counted is published by the self-metrics report or still in the current interval
+  from . import instrsys
+  instrsys.section(ctx, 'C07', 'carbon-relay')
   cfgs = relaycheck.CONFIGS_QUICK + ([] if ctx.quick else relaycheck.CONFIGS_MORE)
   first = True
   for ci, cfg in enumerate(cfgs):
